@@ -320,6 +320,9 @@ int main(int argc, char** argv)
     }
 
     size_t spaced_bins = std::ceil(ps_bins*nbuckets*spacing_ps);
+    // spacing rounded up to whole bins: last bucket's grid has to fit, too
+    spaced_bins = std::max(spaced_bins,
+                           static_cast<size_t>(nbuckets-1)*spacing_bins+ps_bins);
     if (opts.getRoundPadding()) {
         spaced_bins = upper_power_of_two(spaced_bins);
     }
